@@ -129,6 +129,11 @@ func cmdCheck(args []string) int {
 		w.Finish(u.VC)
 		run.units = append(run.units, u)
 	}
+	for _, ip := range w.InitUnits() {
+		u := w.VerifyInit(ip)
+		w.Finish(u.VC)
+		run.units = append(run.units, u)
+	}
 	for _, l := range w.Lemmas {
 		u := w.VerifyLemma(l)
 		w.Finish(u.VC)
@@ -389,6 +394,9 @@ func cmdLock() int {
 	for _, k := range w.UnitKeys() {
 		u := w.VerifyFunc(k)
 		add(u)
+	}
+	for _, ip := range w.InitUnits() {
+		add(w.VerifyInit(ip))
 	}
 	for _, l := range w.Lemmas {
 		add(w.VerifyLemma(l))
